@@ -261,7 +261,8 @@ def call(pe, name, args, kwargs, node):
           out.append(v)
       vals = out
     return tuple(vals) if name == "tuple" else list(vals)
-  if name == "dict":
+  if name in ("dict", "collections.OrderedDict", "OrderedDict"):
+    # (python dictionaries keep insertion order)
     d = {}
     if args:
       a0 = args[0]
@@ -469,8 +470,17 @@ def call(pe, name, args, kwargs, node):
       r = minmax(pe, which, r, v)
     return r
   if name in ("pow", "K.pow", "tf.pow", "np.power", "tf.math.pow"):
-    return pow_(pe, args[0], args[1] if len(args) > 1 else
-                kwargs.get("a", kwargs.get("y")))
+    a_, b_ = args[0], args[1] if len(args) > 1 else kwargs.get(
+        "a", kwargs.get("y"))
+    if name == "np.power" and all(
+        isinstance(v, int) and not isinstance(v, bool) for v in (a_, b_)):
+      # numpy evaluates two python ints in int64 and wraps silently
+      if b_ < 0:
+        raise PyRaise("ValueError", "Integers to negative integer powers "
+                      "are not allowed.")
+      r = (a_ ** b_) & ((1 << 64) - 1)
+      return r - (1 << 64) if r >= (1 << 63) else r
+    return pow_(pe, a_, b_)
   if name == "hasattr":
     o, n = args
     if isinstance(o, Obj):
@@ -1022,6 +1032,14 @@ def isinstance_(pe, v, ty):
       continue
     if isinstance(t, (list, tuple)):
       if isinstance_(pe, v, t):
+        return True
+      continue
+    if isinstance(t, Mock):
+      # a class stand-in supplied by a rule: its instances name it
+      if isinstance(v, Mock) and (v.attrs.get("__class__") is t or
+                                  t.name in v.attrs.get("__classes__", ()) or
+                                  t.name.replace("_class", "") in
+                                  v.attrs.get("__classes__", ())):
         return True
       continue
     if not isinstance(t, Ext):
